@@ -15,7 +15,7 @@ from .c09 import fog_members
 
 ID = "C11"
 LEVEL = "exploration"
-RUNS = {"quick": 3000, "thorough": 80000}
+RUNS = {"quick": 8000, "thorough": 100000}
 RULE = (
     "each run: a seeded virtual trie shape (responses prefix -> sub-segments: leaf, extension of 1-5 nibbles, branch "
     "of 1-16 children, mixed-length antichains, the empty segment), two fog replicas each fed every response through "
